@@ -178,6 +178,9 @@ def menu():
     M.append(('REALGROUND+', '--radial-count=8'))
     M.append(('REALGROUND+', '--boundary=circular'))
     M.append(('NO-GEOMETRY', 'default'))
+    # load kinds the BASIC input cannot mix, in every attach order, with the BASIC input requested
+    for form in ('z-then-rlc', 'rlc-then-z', 'rlc+skin', 'trap+insulation', 'laplace-then-z', 'z+skin'):
+        M.append(('BASIC-MIXED', form))
     M.append(('--trap-load+', '0,1e-6,1.1894e-9'))                     # loss-free trap (resonant near 4.6 MHz)
     M.append(('--bogus-option', '1'))
     return M
@@ -240,6 +243,15 @@ def apply_dev(argv, opt, val):
                 argv = [a for a in argv if not a.startswith('--medium')]
             argv = argv + ([o + '=' + v] if o.startswith('--') else [o, v])
         return argv
+    if opt == 'BASIC-MIXED':
+        argv = [a for a in argv if not a.startswith(('--load', '--rlc', '--trap', '--laplace', '--attach-load', '--skin', '--insulation', '--output-basic'))]
+        extra = {'z-then-rlc': ['--load=25+10j', '--rlc-load=5,2e-6,', '--attach-load=1,1', '--attach-load=2,2'],
+                 'rlc-then-z': ['--load=25+10j', '--rlc-load=5,2e-6,', '--attach-load=2,2', '--attach-load=1,1'],
+                 'rlc+skin': ['--rlc-load=5,2e-6,', '--attach-load=1,2', '--skin-effect-conductivity=1e6'],
+                 'trap+insulation': ['--trap-load=2,1e-6,5e-11', '--attach-load=1,2', '--insulation-load=0.01,2.3'],
+                 'laplace-then-z': ['--load=25+10j', '--laplace-load-a=1,2e-9', '--laplace-load-b=10,3e-6', '--attach-load=2,2', '--attach-load=1,1'],
+                 'z+skin': ['--load=25+10j', '--attach-load=1,2', '--skin-effect-conductivity=1e6']}[val]
+        return argv + extra + ['--output-basic-input=' + os.path.join(TMP, 'mixed.bas')]
     if opt == 'NO-GEOMETRY':
         out, skip = [], False
         for a in argv:
